@@ -14,7 +14,7 @@ RULE = ('generated float models of depth <= 6 over the coverage-table operators 
         'calibration input x; the model is calibrated on x alone and both models are run on x.  Oracle: every dequantized output finite and '
         f'|deq(q) - f| <= {K_STEPS:g} output steps + alpha * A (alpha = {ALPHA:g} for 8-bit weights, {ALPHA_W4:g} for 4-bit weights), A = max '
         '|activation| of the float run; additionally an output whose float values spread over more than max(16 steps, 0.1 A) must not be '
-        'constant.  The first operator whose output leaves 10% of A while its inputs are inside 2% is reported.  A model is admitted only if '
+        'constant.  The first operator whose output leaves 25% of its own magnitude while its inputs are inside 5% is reported.  A model is admitted only if '
         'every float activation has non-zero range on x.  A unit is one (model, config, x); distinct by digest; non-trivial iff the model '
         'has >=2 operators and every output is integer-typed')
 ASSUMPTIONS = ['the bound is deliberately loose: the property is about gross failures (constant / saturated / non-finite outputs)',
@@ -62,8 +62,8 @@ def zero_range_activation(src, f_tens):
 
 
 def first_bad_operator(src, f_tens, q_tens, A):
-  """Type of the first operator (source order) whose output deviates by more than 10% of A from the float run while every
-  runtime input of it deviates by less than 2% of A (tensors matched by name; quantized ones dequantized by the check)."""
+  """Type of the first operator (source order) whose output deviates by more than 25% of its own magnitude from the float run
+  while every runtime input of it deviates by less than 5% (tensors matched by name; quantized ones dequantized by the check)."""
   from vf.props import c18
   sg = src.subgraphs[0]
 
@@ -75,13 +75,36 @@ def first_bad_operator(src, f_tens, q_tens, A):
     b = c18.deq(d, v)
     if a.dtype != np.float32 or getattr(b, 'shape', None) != a.shape:
       return None
-    return float(np.max(np.abs(a.astype(np.float64) - b))) / A if a.size and A > 0 else 0.0
+    if not a.size:
+      return 0.0
+    own = max(float(np.max(np.abs(a))), 1e-6 * A, 1e-30)   # relative to the tensor's own magnitude
+    return float(np.max(np.abs(a.astype(np.float64) - b))) / own
   for op in sg.operators:
     outs = [dev(sg.tensors[int(o)].name.decode()) for o in op.outputs]
     ins = [dev(sg.tensors[int(i)].name.decode()) for i in op.inputs if int(i) >= 0]
-    if any(o is not None and o > 0.10 for o in outs) and all(i is None or i < 0.02 for i in ins):
+    if any(o is not None and o > 0.25 for o in outs) and all(i is None or i < 0.05 for i in ins):
       return models.CODE_NAMES.get(src.operatorCodes[op.opcodeIndex].builtinCode)
   return None
+
+
+def bmm_output_pinned(src, f_tens, q_tens):
+  """Mechanism signature of the BATCH_MATMUL finding: a constant-RHS BATCH_MATMUL whose quantized output tensor is
+  identically its zero point while the float tensor is not constant."""
+  sg = src.subgraphs[0]
+  for op in sg.operators:
+    if src.operatorCodes[op.opcodeIndex].builtinCode != models.BO.BATCH_MATMUL:
+      continue
+    d = src.buffers[sg.tensors[int(op.inputs[1])].buffer].data
+    if d is None or len(d) == 0:
+      continue
+    name = sg.tensors[int(op.outputs[0])].name.decode()
+    if name in q_tens and name in f_tens:
+      det, v = q_tens[name]
+      zp = det['quantization_parameters']['zero_points']
+      a = f_tens[name][1]
+      if len(zp) and v.size > 1 and np.all(v == int(zp[0])) and float(np.max(a) - np.min(a)) > 0:
+        return True
+  return False
 
 
 def bmm_const_channelwise(src, per_channel_weights):
@@ -140,7 +163,7 @@ def evaluate(ctx, spec, src, run, sig, x, ref, weight_bits, act_bits, per_channe
         ctx.violation('output_far_from_float_model' if err > bound else 'output_constant_while_float_output_is_not',
                       dict(f, output_constant=const,
                            output_equals_zero_point=bool(const and zp is not None and int(v.reshape(-1)[0]) == zp),
-                           first_bad_operator=fb),
+                           first_bad_operator=fb, bmm_output_pinned_to_zero_point=bmm_output_pinned(src, f_tens, q_tens)),
                       dict(base, output=k, err=err, bound=bound, A=A, step=step, err_steps=err / step if step else None, spread=spread))
   from vf.run import abortinfo, driver
   info = {'recipe_label': label, 'recipe': run.recipe, 'ops': base.get('ops'), 'census': c01.int16_census(mo)}
